@@ -150,33 +150,33 @@ Qed.
 Ltac split_andb :=
   repeat match goal with H : _ && _ = true |- _ => apply andb_prop in H; destruct H end.
 
-Lemma Wreg_ok r rest : reg_okb r = true -> pieces_ok rest -> match rest with W _ _ :: _ => False | _ => True end -> pieces_ok (Wreg r :: rest).
+Lemma Wreg_ok r rest : reg_okb r = true -> pieces_ok rest -> delim_next rest -> pieces_ok (Wreg r :: rest).
 Proof. intros H Hr Hn. cbn [pieces_ok Wreg]. split; [apply word_ok_reg, reg_okb_range, H|split; assumption]. Qed.
-Lemma Woff_ok v rest : -32768 <= v <= 65535 -> pieces_ok rest -> match rest with W _ _ :: _ => False | _ => True end -> pieces_ok (Woff v :: rest).
+Lemma Woff_ok v rest : -32768 <= v <= 65535 -> pieces_ok rest -> delim_next rest -> pieces_ok (Woff v :: rest).
 Proof. intros H Hr Hn. cbn [pieces_ok Woff]. split; [apply word_ok_off, H|split; assumption]. Qed.
-Lemma Wlab_ok l rest : label_okb l = true -> pieces_ok rest -> match rest with W _ _ :: _ => False | _ => True end -> pieces_ok (Wlab l :: rest).
+Lemma Wlab_ok l rest : label_okb l = true -> pieces_ok rest -> delim_next rest -> pieces_ok (Wlab l :: rest).
 Proof. intros H Hr Hn. cbn [pieces_ok Wlab]. split; [apply word_ok_label, H|split; assumption]. Qed.
-Lemma Wkw_ok m k rest : kw_text_ok (zs m) k = true -> pieces_ok rest -> match rest with W _ _ :: _ => False | _ => True end -> pieces_ok (Wkw m k :: rest).
+Lemma Wkw_ok m k rest : kw_text_ok (zs m) k = true -> pieces_ok rest -> delim_next rest -> pieces_ok (Wkw m k :: rest).
 Proof. intros H Hr Hn. cbn [pieces_ok Wkw]. split; [apply word_ok_kw, H|split; assumption]. Qed.
-Lemma Whex_ok w v rest : 0 <= v <= 65535 -> pieces_ok rest -> match rest with W _ _ :: _ => False | _ => True end -> pieces_ok (Whex w v :: rest).
+Lemma Whex_ok w v rest : 0 <= v <= 65535 -> pieces_ok rest -> delim_next rest -> pieces_ok (Whex w v :: rest).
 Proof. intros H Hr Hn. cbn [pieces_ok Whex]. split; [apply word_ok_hex, H|split; assumption]. Qed.
-Lemma Wdir_ok m rest : forallb is_word (zs m) = true -> pieces_ok rest -> match rest with W _ _ :: _ => False | _ => True end -> pieces_ok (Wdir m :: rest).
+Lemma Wdir_ok m rest : forallb is_word (zs m) = true -> pieces_ok rest -> delim_next rest -> pieces_ok (Wdir m :: rest).
 Proof. intros H Hr Hn. cbn [pieces_ok Wdir]. split; [apply word_ok_directive, H|split; assumption]. Qed.
 
-Lemma Wior_ok o rest : ior_okb o = true -> pieces_ok rest -> match rest with W _ _ :: _ => False | _ => True end -> pieces_ok (Wior o :: rest).
+Lemma Wior_ok o rest : ior_okb o = true -> pieces_ok rest -> delim_next rest -> pieces_ok (Wior o :: rest).
 Proof.
   destruct o; cbn [ior_okb Wior]; intros H Hr Hn.
   - apply Woff_ok; [apply (fits_s_range 5); [lia|exact H]|assumption|assumption].
   - apply Wreg_ok; assumption.
 Qed.
-Lemma Wpc_ok n o rest : 1 <= n <= 16 -> pcoff_okb n o = true -> pieces_ok rest -> match rest with W _ _ :: _ => False | _ => True end -> pieces_ok (Wpc o :: rest).
+Lemma Wpc_ok n o rest : 1 <= n <= 16 -> pcoff_okb n o = true -> pieces_ok rest -> delim_next rest -> pieces_ok (Wpc o :: rest).
 Proof.
   intros Hn. destruct o; cbn [pcoff_okb Wpc]; intros H Hr Hnx.
   - apply Woff_ok; [apply (fits_s_range n); assumption|assumption|assumption].
   - apply Wlab_ok; assumption.
 Qed.
 
-Lemma W_ok x t rest : word_ok x t -> pieces_ok rest -> match rest with W _ _ :: _ => False | _ => True end -> pieces_ok (W x t :: rest).
+Lemma W_ok x t rest : word_ok x t -> pieces_ok rest -> delim_next rest -> pieces_ok (W x t :: rest).
 Proof. intros H Hr Hn. cbn [pieces_ok]. split; [exact H|split; assumption]. Qed.
 Lemma Sp_ok r : pieces_ok r -> pieces_ok (Sp :: r). Proof. exact (fun H => H). Qed.
 Lemma Cm_ok r : pieces_ok r -> pieces_ok (Cm :: r). Proof. exact (fun H => H). Qed.
@@ -407,16 +407,16 @@ Proof.
 Qed.
 
 Lemma filter_toks ps pos :
-  forallb (fun p => match p with W _ t => negb (is_comment t) | _ => true end) ps = true ->
+  forallb (fun p => match p with W _ t => negb (is_comment t) | Cmt _ => false | _ => true end) ps = true ->
   filter (fun t : tok => negb (is_comment (fst t))) (toks_of pos ps) = toks_of pos ps.
 Proof.
   revert pos. induction ps as [|p ps IH]; intros pos H; [reflexivity|].
   cbn [forallb] in H. apply andb_prop in H. destruct H as [Hp Hps].
-  destruct p; cbn [toks_of filter fst]; try rewrite Hp; try (cbn [is_comment negb]); rewrite ?IH by exact Hps; reflexivity.
+  destruct p; try discriminate; cbn [toks_of filter fst]; try rewrite Hp; try (cbn [is_comment negb]); rewrite ?IH by exact Hps; reflexivity.
 Qed.
 
 Lemma stmt_pieces_no_comment s :
-  forallb (fun p => match p with W _ t => negb (is_comment t) | _ => true end) (stmt_pieces s) = true.
+  forallb (fun p => match p with W _ t => negb (is_comment t) | Cmt _ => false | _ => true end) (stmt_pieces s) = true.
 Proof.
   unfold stmt_pieces. rewrite forallb_app. apply andb_true_intro. split.
   - unfold label_pieces. induction (s_labels s) as [|l ls IH]; [reflexivity|]. cbn [flat_map app forallb Wlab is_comment negb andb]. exact IH.
